@@ -380,6 +380,22 @@ def _score_every_phantom(self, run):
                                                 f"value {a_m}: overstatement {om!r}, expected 1/2 - {a_m}")
                 except Exception as e:
                     out.raised("overstatement(phantom population)", e)
+        # a phantom record that carries votes (an exporter's placeholder filled in by hand) is still a phantom: its own
+        # assorter value is the fixed 1/2, whatever it lists
+        c2 = ns.CVR(id="ph-with-votes", votes={cid: dict(winner_vote)}, phantom=True)
+        for key, asn in con.assertions.items():
+            try:
+                with W.quiet():
+                    for label, m in recs:
+                        om = asn.assorter.overstatement(m, c2, use_style=style)
+                        out.units["pairs_scored"] += 1
+                        a_m = 0.0 if (m.phantom or (style and not m.has_contest(cid))) else W.ref_assort(descs[key], m.votes)
+                        if not close(om, 0.5 - a_m):
+                            out.violate("C08.f", f"unpooled/{cs['choice_function']}/phantom-with-votes",
+                                        f"phantom CVR listing a vote (style={style}) against manual record '{label}' of assorter "
+                                        f"value {a_m}: overstatement {om!r}, expected 1/2 - {a_m}")
+            except Exception as e:
+                out.raised("overstatement(phantom with votes)", e)
 
 
 Obs.score_every_phantom = _score_every_phantom
